@@ -36,9 +36,14 @@ import (
 //
 // Known finding (design level): the (day, fingerprint) pair is put into the cache when the
 // request is parsed, before the series INSERT has succeeded; once that INSERT fails on all
-// attempts, later pushes of the stream are acknowledged without a series row until the next
-// cache reset. The campaign does not judge samples of fingerprints whose series row was in
-// a failed INSERT (counted with o.Known); the witness is replayed with the exclusion off.
+// attempts the push is answered with an error, but LATER pushes of the stream (the client's
+// retry, or any other push) are acknowledged without a series row until the next cache
+// reset. The exclusion is exactly that signature: the acknowledged push itself submitted no
+// series row that would cover the sample, and an earlier push that was answered with an
+// error status had submitted one for the fingerprint which only travelled in failed
+// INSERTs (counted with o.Known; the witness is replayed with the exclusion off). A push
+// that is itself acknowledged must have the series rows it submitted in a successful
+// time_series INSERT: no exclusion.
 
 const FindingAnnouncedBeforeInsert = "C04-series-announced-before-insert"
 
@@ -110,6 +115,9 @@ type idxPush struct {
 	day     int64
 	id      int
 	samples []idxSample
+	seq     int                      // position in the history
+	status  int                      // what the client saw
+	own     map[uint64][]fakech.Date // series rows the handler submitted for this push (any attempt)
 }
 
 func idxBuild(p *idxPush, loc *time.Location) *http.Request {
@@ -244,7 +252,8 @@ func predIndexing(c idxCase, o *evid.Obs) error {
 	type acked struct {
 		push *idxPush
 	}
-	var ackedPushes []*idxPush
+	var ackedPushes, allPushes []*idxPush
+	seq := 0
 	var lastFailed *idxPush
 	day := idxDay0
 	id := 0
@@ -338,9 +347,35 @@ func predIndexing(c idxCase, o *evid.Obs) error {
 					if ok {
 						continue
 					}
-					if lost[fp] && !o.Witness {
-						knownHit = true
-						continue
+					ownCovers := false
+					for _, d := range p.own[fp] {
+						if d >= need {
+							ownCovers = true
+						}
+					}
+					if !ownCovers && lost[fp] && !o.Witness {
+						// only the recorded finding: an earlier push, answered with an error, announced
+						// the pair and its series row never got through
+						hit := false
+						for _, q := range allPushes {
+							if q.seq >= p.seq || (q.status >= 200 && q.status < 300) {
+								continue
+							}
+							for _, d := range q.own[fp] {
+								if d >= need {
+									hit = true
+								}
+							}
+						}
+						if hit {
+							knownHit = true
+							continue
+						}
+					}
+					if ownCovers {
+						return fmt.Errorf("after step %d: push %d (%s) was acknowledged (%d) and had itself submitted the series row for fingerprint %d (dates %v), but that row is in no successful time_series INSERT "+
+							"(successfully inserted dates: %v): sample %q at %s is not discoverable (time.Local=%s)",
+							step, p.id, p.action.Proto, p.status, fp, p.own[fp], series[fp], row.Marker, time.Unix(0, t).UTC().Format(time.RFC3339Nano), idxZones[c.TZ])
 					}
 					have := "none"
 					if len(series[fp]) > 0 {
@@ -381,10 +416,30 @@ func predIndexing(c idxCase, o *evid.Obs) error {
 				}
 			}
 			before := len(hs.DB.Calls())
+			subsBefore := len(hs.Rec.Subs())
 			status, err := drive(p)
 			if err != nil {
 				return err
 			}
+			// doParse answers on the first failed part; let the sibling parts' retries finish
+			for dl := time.Now().Add(20 * time.Second); !hs.Rec.Settled(retries) && time.Now().Before(dl); {
+				hs.Svc[inssvc.Samples].PlanFlush()
+				hs.Svc[inssvc.Series].PlanFlush()
+				time.Sleep(150 * time.Microsecond)
+			}
+			seq++
+			p.seq, p.status, p.own = seq, status, map[uint64][]fakech.Date{}
+			for _, sub := range hs.Rec.Subs()[subsBefore:] {
+				if sub.Kind != inssvc.Series {
+					continue
+				}
+				for _, r := range sub.Rows {
+					fp, _ := r.Cols["fingerprint"].(uint64)
+					d, _ := r.Cols["date"].(fakech.Date)
+					p.own[fp] = append(p.own[fp], d)
+				}
+			}
+			allPushes = append(allPushes, p)
 			o.Tag(fmt.Sprintf("status:%dxx", status/100), "proto:"+p.action.Proto)
 			days := map[int64]bool{}
 			for _, sm := range p.samples {
